@@ -92,6 +92,35 @@ with terms_eqb (a b : terms) {struct a} : bool :=
   | _, _ => false
   end.
 
+(* Type identity ignores parameter and result names, and the Go checker shares ONE instance among identical
+   type-argument lists: the names seen inside the type arguments of an instantiated type are those of whichever
+   identical instance was created first.  [erase d t] blanks parameter / result names inside type arguments
+   (d = inside a type-argument list); everything else, names outside type arguments included, is kept. *)
+Fixpoint erase (d : bool) (t : ty) {struct t} : ty :=
+  match t with
+  | TNamed a p n l => TNamed a p n (erase_tys true l)
+  | TPtr e => TPtr (erase d e)
+  | TSlice e => TSlice (erase d e)
+  | TArray n e => TArray n (erase d e)
+  | TMap k e => TMap (erase d k) (erase d e)
+  | TChan dir e => TChan dir (erase d e)
+  | TStruct fs => TStruct (erase_fields d fs)
+  | TFunc v ps rs => TFunc v (erase_params d ps) (erase_params d rs)
+  | TIface a i es ms => TIface a i (erase_tys d es) (erase_methods d ms)
+  | TUnion ts => TUnion (erase_terms d ts)
+  | _ => t
+  end
+with erase_tys (d : bool) (l : tys) {struct l} : tys :=
+  match l with TNil => TNil | TCons t r => TCons (erase d t) (erase_tys d r) end
+with erase_fields (d : bool) (l : fields) {struct l} : fields :=
+  match l with FNil => FNil | FCons n e g t r => FCons n e g (erase d t) (erase_fields d r) end
+with erase_params (d : bool) (l : params) {struct l} : params :=
+  match l with PNil => PNil | PCons n t r => PCons (if d then [] else n) (erase d t) (erase_params d r) end
+with erase_methods (d : bool) (l : methods) {struct l} : methods :=
+  match l with MNil => MNil | MCons n v ps rs r => MCons n v (erase_params d ps) (erase_params d rs) (erase_methods d r) end
+with erase_terms (d : bool) (l : terms) {struct l} : terms :=
+  match l with TmNil => TmNil | TmCons x t r => TmCons x (erase d t) (erase_terms d r) end.
+
 (* environment of a case: type parameters in scope and the alias names (pkg, name) *)
 Definition mk_env (tps : list str) (aliases : list (N * str)) : env :=
   mkEnv tps (fun p n => existsb (fun a => (fst a =? p) && str_eqb (snd a) n) aliases).
@@ -102,7 +131,7 @@ Definition mk_env (tps : list str) (aliases : list (N * str)) : env :=
 Definition run_case (tps : list str) (aliases : list (N * str)) (t : ty) (obs : syn) (back : ty)
   : bool * bool * bool * bool :=
   let E := mk_env tps aliases in
-  (syn_eqb (to_syn t) obs, ty_eqb (denote E obs) back, wf E t, ty_eqb (denote E (to_syn t)) t).
+  (syn_eqb (to_syn t) obs, ty_eqb (erase false (denote E obs)) (erase false back), wf E t, ty_eqb (denote E (to_syn t)) t).
 
 (* channel fragment: observed token list of the printed text *)
 Definition run_chan (t : cty) (obs : list tok) : bool * bool :=
@@ -142,7 +171,7 @@ Definition k1_bad := bad_where (fun c => syn_eqb (to_syn (c_t c)) (c_obs c)).
 (* K2: the model's denotation of that syntax is what the Go checker resolved it to *)
 Definition k2_bad := bad_where (fun c =>
   let E := mk_env (c_tps c) (c_aliases c) in
-  ty_eqb (if c_constraint c then denote_constraint E (c_obs c) else denote E (c_obs c)) (c_back c)).
+  ty_eqb (erase false (if c_constraint c then denote_constraint E (c_obs c) else denote E (c_obs c))) (erase false (c_back c))).
 (* HYP: the case lies in the domain of the round-trip theorem *)
 Definition hyp_bad := bad_where (fun c =>
   let E := mk_env (c_tps c) (c_aliases c) in
